@@ -64,7 +64,9 @@ where
     }
 
     pub(crate) fn take_bytes(self, limit: usize) -> Result<Vec<u8>> {
-        let mut output = Vec::with_capacity(limit);
+        // `limit` is a size declared inside the file. Do not reserve it up front:
+        // a bogus value would abort the process on allocation failure.
+        let mut output = Vec::new();
         self.input.take(limit as u64).read_to_end(&mut output)?;
         if output.len() != limit {
             Err(AsepriteParseError::InvalidInput(format!(
@@ -78,9 +80,13 @@ where
     }
 
     pub(crate) fn unzip(self, expected_output_size: usize) -> Result<Vec<u8>> {
-        let mut decoder = ZlibDecoder::new(self.input);
-        let mut buffer = Vec::with_capacity(expected_output_size);
-        decoder.read_to_end(&mut buffer)?;
+        let decoder = ZlibDecoder::new(self.input);
+        // `expected_output_size` is derived from sizes declared inside the file. Do
+        // not reserve it up front and do not inflate (much) more than that.
+        let mut buffer = Vec::new();
+        decoder
+            .take((expected_output_size as u64).saturating_add(1))
+            .read_to_end(&mut buffer)?;
         if buffer.len() != expected_output_size {
             return Err(AsepriteParseError::InvalidInput(format!(
                 "Invalid size of decompressed data. Expected: {}, Actual: {}{}",
